@@ -57,6 +57,9 @@ type Pipe struct {
 	// Delays are per-read delays, cycled; empty = none.
 	Delays   []time.Duration
 	delayIdx int
+	// StaleStays: a Read parked when the session ended stays parked over later sessions of the same
+	// transport object (CloseBlock taken to its end; wall-clock cases only, see Reset)
+	StaleStays bool
 	// Pause: one long pause, once, before the PauseAtRead-th delivering read (0-based): the device
 	// falls silent in the middle of whatever it was sending
 	Pause       time.Duration
@@ -273,8 +276,15 @@ func (p *Pipe) Read(n int) ([]byte, error) {
 	session := p.session
 
 	for {
-		if p.released || p.session != session {
+		if p.released || (p.session != session && !p.StaleStays) {
 			return nil, io.EOF
+		}
+
+		if p.session != session {
+			// a read of an earlier session that the transport never wakes (until teardown)
+			p.cond.Wait()
+
+			continue
 		}
 
 		if p.closed {
